@@ -2,7 +2,7 @@
 # every property's thorough check, one after the other (used with `vp run`); prints one summary line per property
 cd "$(dirname "$0")"
 rc=0
-for p in C01 C02 C03 C04 C06 C07 C08 C09 C10 C11 C12 C13 C14 C15 C16 C17 C18 C19 C20 C05; do
+for p in C09 C11 C10 C15 C18 C20 C19 C16 C03 C13 C14 C01 C06 C05 C04 C07 C12 C17 C08 C02; do
   ./check $p --tier thorough 2>&1 | grep -v "^WARNING" | grep -v " ok " | cut -c1-300
   [ ${PIPESTATUS[0]} -ne 0 ] && rc=1
 done
